@@ -194,6 +194,24 @@ def _work(ob: Ob, known: List[Dict[str, Any]], conn):
                            "note": ob.note, "pre": ob.pre, "status": "unknown", "paths": 0, "queries": 0,
                            "solver_s": 0.0, "replays": 0, "messages": [], "known": [], "functions": []}
     try:
+        # ---- 0. termination probe (C08): one concrete instance under a wall-clock watchdog ----
+        if ob.params.get("hang_probe"):
+            defaults = {n: (0 if t == "int" else ("" if t == "str" else b"")) for n, t in ob.vars.items()}
+            rp = replay_subprocess(ob.harness, ob.params, defaults, timeout=ob.params.get("hang_timeout", 25))
+            res["replays"] += 1
+            if rp.get("timeout"):
+                cex = {"values": _jsonable(defaults), "detail": "does not terminate: concrete assembly of this input exceeded the watchdog", "replay": rp}
+                matched = _match_known(known, ob.oid, defaults, [])
+                if matched is not None:
+                    res["known"].append({"id": matched["id"], "what": matched["what"], "cex": cex})
+                    res["status"] = "confirmed"  # nothing else can be explored on an input that hangs
+                    res["messages"].append("known non-terminating input; symbolic exploration skipped")
+                else:
+                    res["status"] = "violated"
+                    res["cex"] = cex
+                res["wall_s"] = round(time.time() - t0, 2)
+                conn.send(res)
+                return
         # ---- 1. twin -----------------------------------------------------------------
         if ob.twin:
             common.SIDE.clear()
@@ -259,18 +277,7 @@ def _work(ob: Ob, known: List[Dict[str, Any]], conn):
                                            "(encoding/shim wrong?): " + json.dumps(cex)[:3000])
                     break
                 # reproduced: known finding?
-                matched = None
-                for k in known:
-                    if k.get("status", "open") != "open":
-                        continue
-                    if not _oid_match(k.get("obligation", "*"), ob.oid):
-                        continue
-                    try:
-                        if eval(k["region"], {"__builtins__": {"abs": abs, "len": len, "sum": sum, "min": min, "max": max}}, dict(cv.cex)):
-                            matched = k
-                            break
-                    except Exception:
-                        continue
+                matched = _match_known(known, ob.oid, cv.cex, exclude)
                 if matched is not None and matched["region"] not in exclude:
                     res["known"].append({"id": matched["id"], "what": matched["what"], "cex": cex})
                     exclude.append(matched["region"])
@@ -298,12 +305,26 @@ def _work(ob: Ob, known: List[Dict[str, Any]], conn):
         pass
 
 
+def _match_known(known, oid, values, exclude):
+    for k in known:
+        if k.get("status", "open") != "open":
+            continue
+        if not _oid_match(k.get("obligation", "*"), oid):
+            continue
+        try:
+            if eval(k["region"], {"__builtins__": {"abs": abs, "len": len, "sum": sum, "min": min, "max": max}}, dict(values)):
+                return k
+        except Exception:
+            continue
+    return None
+
+
 def _oid_match(pattern, oid):
     import fnmatch
     return fnmatch.fnmatchcase(oid, pattern)
 
 
-def run_all(obs: List[Ob], known: List[Dict[str, Any]], jobs: int = 16, log=None, wall_factor: float = 6.0):
+def run_all(obs: List[Ob], known: List[Dict[str, Any]], jobs: int = 16, log=None, wall_factor: float = 3.0):
     """Run obligations in forked workers; returns list of result dicts in input order."""
     ctx = mp.get_context("fork")
     pending = list(enumerate(obs))
